@@ -146,6 +146,8 @@ def caller_value(rng):
   """A value the caller supplies: now and then an object whose identity matters (ids 400-449 are never
   normalised after a deepcopy, so a copied caller value shows up as a different object)."""
   if rng.random() < 0.15:
+    if rng.random() < 0.2:
+      return {'o': 460 + rng.randrange(10)}   # an object that compares equal to anything, REQUIRED included
     return {'o': 400 + rng.randrange(50)}
   return gen_value(rng, 1)
 
